@@ -714,7 +714,7 @@ class C14(TextPlan):
     extra_env = {'GORACE': 'halt_on_error=1 exitcode=66'}
     timeout_ms = 60000
     tie_name = 'concurrent jobs under the race detector: every result of every goroutine vs the pure extracted model of that job'
-    rule = ('jobs = assemble a rendered program (incl. FOR counts over EQU chains, whose resolution walks Go maps) / build a simulator, add warrior data, scribble over the caller\'s copy afterwards, spawn, run; '
+    rule = ('jobs = assemble a rendered program (incl. FOR counts over EQU chains, whose resolution walks Go maps) or a text with an unterminated / empty FOR block / build a simulator, add warrior data, scribble over the caller\'s copy afterwards, spawn, run; '
             'each job repeated 12-24 times on 1..32 goroutines at once in a binary built with -race (halt on the first report); all repetitions must give one and the same result and it must equal the '
             'pure model\'s; non-trivial = the job succeeded (assembled / battle ran)')
     base_gens = [('prog', 150, progargs(2, 2, EQUS | FORS, 4)), ('prog', 60, progargs(2, 3, EQUS | SIGNS | ASSERTS, 4)), ('prog', 40, progargs(0, 2, EQUS, 4))]
@@ -727,6 +727,13 @@ class C14(TextPlan):
         for cfg, t in base:
             threads = rng.choice([1, 2, 4, 8, 16, 32])
             lines.append([14, threads, rng.choice([12, 16, 24]), 10] + cfg + list(t))
+        # texts on which the expander ends without having sent anything, or early: what the reader of its
+        # channel gets must not depend on how far the goroutine has got (D31)
+        early = [b'i for 2\ndat i\n', b'i for 2\ndat i', b'for 3', b'x for 2\n', b'for 1\nfor 1\ndat 0\nrof\n', b'a equ 1\nfor a\ndat 0\n',
+                 b'dat 0\nfor 2\n', b'|', b'for 2\ndat 0 |\nrof\n', b'for 0\nrof', b'for 2\nrof\n', b'lbl for 1\n;c\n']
+        for t in early:
+            for md in (2, 0):
+                lines.append([14, rng.choice([8, 16, 32]), 24, 10] + [md, 8000, 8000, 80000, 8000, 8000, 100, 100] + list(t))
         k = {'quick': 1, 'search': 1}.get(tier, 20)
         for b in E.gen_cases('battle', seed + 5, 120 * k, [2 | 4 | 8 | 128, 3, 1, 60]):
             threads = rng.choice([1, 4, 16, 32])
